@@ -494,7 +494,9 @@ int32_t jls_core_rd_chunk_end(struct jls_core_s * self) {
         for (int64_t i = (length - sizeof(struct jls_chunk_header_s)) / sizeof(uint64_t); i >= 0; --i) {
             h = (struct jls_chunk_header_s *) &data[i];
             uint32_t crc32 = jls_crc32c_hdr(h);
-            if (crc32 == h->crc32) {
+            // A 28-byte payload followed by its CRC (an annotation without data) has the shape of a header:
+            // a genuine header has a valid tag and a zero reserved byte (there: annotation and storage type).
+            if ((crc32 == h->crc32) && (h->tag != JLS_TAG_INVALID) && (0 == h->rsv0_u8)) {
                 int64_t pos_final = pos + i * sizeof(uint64_t);
                 // likely chunk candidate, validate payload
                 if (jls_raw_chunk_seek(self->raw, pos_final)) {
